@@ -78,6 +78,26 @@ def ulps(a: float, b: float) -> float:
 # ----------------------------------------------------------------------------------------------
 # Lean: build, audit, driver
 # ----------------------------------------------------------------------------------------------
+def rule_cache(mod):
+    """the module-level cache of finite-difference rules (an optional attachment point: found by its name, or — if renamed — as
+    the only module-level dict keyed by tuples); a detached dict when it cannot be identified"""
+    c = getattr(mod, 'FD_RULES', None)
+    if isinstance(c, dict):
+        return c
+    cands = [v for k, v in vars(mod).items() if isinstance(v, dict) and not k.startswith('__') and all(isinstance(kk, tuple) for kk in v)]
+    return cands[0] if len(cands) == 1 else {}
+
+
+def generated_steps(obj, x_i):
+    """(steps, step_ratio) the differentiator `obj` generates at `x_i`: through its private `_get_steps` when present (an optional
+    attachment point), else through the public generator object `obj.step`"""
+    g = getattr(obj, '_get_steps', None)
+    if g is not None:
+        return g(x_i)
+    gen = obj.step.step_generator_function(x_i, obj.method, obj.n, obj.method_order)
+    return list(gen()), gen.step_ratio
+
+
 class LeanLock:
     def __enter__(self):
         os.makedirs(os.path.join(LEAN, '.lake'), exist_ok=True)
